@@ -3,6 +3,8 @@ package checks
 import (
 	"fmt"
 	"math/rand"
+	"os"
+	"path/filepath"
 	"strings"
 
 	"github.com/opsidian/parsley/ast"
@@ -13,6 +15,7 @@ import (
 	"github.com/opsidian/parsley/text"
 	"github.com/opsidian/parsley/text/terminal"
 
+	"verifharness/internal/gram"
 	"verifharness/internal/run"
 )
 
@@ -195,6 +198,32 @@ func c10exec(j run.Job, a *run.Acc) {
 		if r.Intn(50) == 0 {
 			k = 10 + r.Intn(30) // a long token sequence from time to time
 		}
+		scale := j.Family == "scale"
+		longGaps := false
+		if scale {
+			// LONG inputs: hundreds to thousands of tokens, or a few tokens with whitespace runs of hundreds to tens of
+			// thousands of bytes (CRLF-heavy), so that runs, positions and the file cross 256 B, 4 KiB, 32 KiB and 64 KiB
+			switch it % 3 {
+			case 0:
+				k = 300 + r.Intn(2700)
+			case 1:
+				k, longGaps = 2+r.Intn(5), true
+			default:
+				k, longGaps = 40+r.Intn(200), true
+			}
+		}
+		gap := func() string {
+			if !longGaps || r.Intn(3) == 0 {
+				return c10gap(r)
+			}
+			n := []int{100, 255, 256, 257, 1000, 4095, 4096, 4097, 20000, 40000}[r.Intn(10)]
+			if k > 10 && n > 4097 {
+				n = 300
+			}
+			unit := []string{" ", "\r\n", "\n", " \t", "\r\n ", "\f ", "\r\n", "\r\n\t", "\r\n"}[r.Intn(9)]
+			s := strings.Repeat(unit, n/len(unit)+1)
+			return c10gap(r) + s[:len(s)-r.Intn(len(unit))]
+		}
 		var toks []c10tok
 		var raw strings.Builder
 		for i := 0; i < k; i++ {
@@ -206,21 +235,32 @@ func c10exec(j run.Job, a *run.Acc) {
 			if r.Intn(8) == 0 {
 				t.Trim = true
 			}
+			if scale {
+				// permissive modes: a long input has to be accepted up to its end for the far offsets to be reached at all
+				t.Left, t.Right, t.Trim = 2, []int{-1, 2, 2}[r.Intn(3)], false
+				if i == k-1 && r.Intn(3) == 0 {
+					t.Right = r.Intn(4) // a strict mode at the very end only
+				}
+			}
 			if j.Family == "permitted" {
 				// bias towards layouts that the modes accept: the transparency half of the property
 				t.Left, t.Right = []int{-1, 2, 2, 1}[r.Intn(4)], []int{-1, 2, 2, 1}[r.Intn(4)]
 			}
 			toks = append(toks, t)
-			raw.WriteString(c10gap(r))
+			raw.WriteString(gap())
 			raw.WriteString(t.Text)
 		}
-		raw.WriteString(c10gap(r))
+		raw.WriteString(gap())
 		rep := r.Intn(3) // 0: SeqOf, 1: Many over one trimmed token kind, 2: SepBy
 		nPre := r.Intn(3)
 		pre := make([]int, nPre)
 		for i := range pre {
 			pre[i] = r.Intn(20)
 		}
+		if r.Intn(12) == 0 {
+			pre = append(pre, gram.BigOffsets[r.Intn(len(gram.BigOffsets))]) // beyond a file of 64 KiB ... 2^40 bytes
+		}
+		viaReadFile := scale && r.Intn(2) == 0
 		if !a.Begin() {
 			if a.Only >= 0 && a.CaseIdx() < a.Only {
 				// replay of a later case: the token parsers have been used by the earlier cases of the job
@@ -240,13 +280,40 @@ func c10exec(j run.Job, a *run.Acc) {
 		in := string(specNormalise([]byte(raw.String())))
 		fs := parsley.NewFileSet()
 		for i, n := range pre {
-			fs.AddFile(text.NewFile(fmt.Sprintf("p%d", i), make([]byte, n)))
+			fs.AddFile(gram.Filler(fmt.Sprintf("p%d", i), n, 0))
 		}
 		f := text.NewFile("f", []byte(raw.String()))
+		fname := "f"
+		if viaReadFile {
+			// the input is a file on disk, loaded with text.ReadFile (the file's name is its path)
+			dir, derr := os.MkdirTemp(run.OutRoot(), "c10-readfile-")
+			if derr != nil {
+				a.Note("cannot create a temporary directory: %v", derr)
+				continue
+			}
+			fname = filepath.Join(dir, "f")
+			werr := os.WriteFile(fname, []byte(raw.String()), 0o644)
+			var rerr error
+			if werr == nil {
+				f, rerr = text.ReadFile(fname)
+			}
+			os.RemoveAll(dir)
+			if werr != nil || rerr != nil {
+				a.Note("temporary file: %v %v", werr, rerr)
+				continue
+			}
+			a.Count("inputs loaded from disk with text.ReadFile", 1)
+		}
 		rd0 := placeFile(fs, f, it%2 == 1)
 		base := int(f.Pos(0))
 		ctx := parsley.NewContext(fs, rd0)
 		d := map[string]any{"input": in, "tokens": toks, "base_offset": base}
+		if scale {
+			a.SetMax("scale: input bytes", int64(len(in)))
+			a.SetMax("scale: tokens", int64(len(toks)))
+			// the input is too long to be copied into a violation record: the replay file regenerates it from the job seed
+			d = map[string]any{"input_bytes": len(in), "input_head": trunc(in, 300), "tokens_count": len(toks), "first_tokens": toks[:min(len(toks), 6)], "base_offset": base, "loaded_with": map[bool]string{true: "text.ReadFile", false: "text.NewFile"}[viaReadFile]}
+		}
 
 		if j.Family == "repeat" && rep > 0 {
 			// Many / SepBy over trimmed tokens: every element uses the first token's parser; success path and totality only
@@ -428,6 +495,9 @@ func c10exec(j run.Job, a *run.Acc) {
 				want = "TOKEN"
 			}
 		}
+		if fname != "f" {
+			want = strings.Replace(want, " at f:", " at "+fname+":", 1)
+		}
 		d["expected"] = want
 		d["trimmed_end_mode"] = endMode
 		named := run.Hash(in+"named")%3 == 0
@@ -533,6 +603,7 @@ func init() {
 				jobs = append(jobs, run.Job{Family: "permitted", Seed: seed*100000 + 30000 + int64(i), N: per / 2})
 				jobs = append(jobs, run.Job{Family: "repeat", Seed: seed*100000 + 60000 + int64(i), N: per / 2})
 				jobs = append(jobs, run.Job{Family: "backtrack", Seed: seed*100000 + 80000 + int64(i), N: per / 2})
+				jobs = append(jobs, run.Job{Family: "scale", Seed: seed*100000 + 90000 + int64(i), N: per / 160})
 			}
 			return jobs
 		},
@@ -540,7 +611,7 @@ func init() {
 		Finish: func(tier string, a *run.Acc, cov map[string]any) string {
 			cov["rule"] = "case = 1-4 tokens (Op, Word, Integer, String terminals), each independently wrapped in LeftTrim(mode)|none and RightTrim(mode)|none in both nesting orders, or text.Trim, " +
 				"with a whitespace string (space, tab, LF, FF, CRLF mixtures, or empty) in every gap incl. before the first and after the last token; root Sentence(SeqOf(...)); " +
-				"also Many/SepBy over a trimmed token; file placed after 0-2 other files. Oracle: byte-level simulation: each trimming parser sees the maximal run where it is invoked; " +
+				"also Many/SepBy over a trimmed token; file placed after 0-2 other files, one case in 12 beyond a file of 64 KiB ... 2^40 bytes; family scale: 300-3000 tokens, or whitespace runs of 100-40000 bytes (CRLF-heavy) in the gaps, half of these inputs written to disk and loaded with text.ReadFile. Oracle: byte-level simulation: each trimming parser sees the maximal run where it is invoked; " +
 				"the first failing check in parse order gives the exact expected text 'failed to parse the input: <mode message> at f:L:C' (start of run / first line break / end of run); " +
 				"otherwise the parse must succeed and every token node must have exactly the expected Pos, ReaderPos (moved only by its own right trim) and value. " +
 				"Ill-formed token sequences are checked for totality only. non-trivial = a whitespace error was compared, or a layout containing whitespace was accepted and checked"
